@@ -1,22 +1,34 @@
 //! C12 whole-compiler differential exploration (label: explored, not proved).
 //!
-//! usage: h12c <out_dir> <tier>        (VERIF_SEED from the environment)
+//! usage: h12c <out_dir> <tier>        (VERIF_SEED, VERIF_REPO from the environment)
 //!
 //! Each project is compiled once per configuration, every time in a fresh database:
 //!   threads  : rayon pool of 1 / 2 / 4 / 16 threads (`ThreadPoolBuilder`, `pool.install`)
-//!   warm-up  : `compile_prepared_db_program_artifact` (-> `ensure_diagnostics` +
-//!              `warmup_functions_blocking`, parallel when the pool has > 1 thread) versus
-//!              `compile_prepared_db_program` (no warm-up at all)
-//!   prefix   : none, or a seeded random sequence of unrelated queries asked first on the same
-//!              database (syntax / semantic / lowering diagnostics of random modules, Sierra of random
-//!              corelib and project functions), sequentially or in parallel on database clones
-//! and the artifacts must be byte-identical to those of the baseline configuration:
-//!   diagnostics text, Sierra with debug names (`replace_sierra_ids_in_program`), Sierra with
-//!   canonical ids (`CanonicalReplacer`, debug names removed), CASM text; for the Starknet project the
-//!   contract class JSON and the CASM contract class JSON.
-//! The Sierra text with the *raw* interned ids is recorded too: it is allowed to differ (that is
-//! the schedule-dependent state the canonical replacer erases) and the number of configurations in
-//! which it does is reported.
+//!   warm-up  : which entry point is asked first - `compile_prepared_db_program_artifact`
+//!              (-> `ensure_diagnostics` + `warmup_functions_blocking`, parallel when the pool has
+//!              > 1 thread) or `compile_prepared_db` (no warm-up at all); both are always run
+//!   history  : none, or a seeded random sequence of other queries asked first on the same database:
+//!              syntax / semantic / lowering diagnostics of single modules, and per-function queries
+//!              (`function_with_body_sierra`, `lowered_body` at every stage,
+//!              `function_with_body_feedback_set`) - more than half of them on modules and functions
+//!              OF THE SAME PROJECT, the rest on corelib - sequentially or in parallel on database
+//!              clones; optionally after another project was compiled in the same database
+//! and EVERYTHING the compile entry points return must be byte-identical to the baseline
+//! configuration (interned ids canonicalised where an output is keyed by them):
+//!   diagnostics; Sierra with debug names / canonical ids; CASM; statement annotations; function debug
+//!   info; type names; the `ProgramArtifact` JSON with its `executables`; for `#[executable]`
+//!   projects the list of executables and every executable's compiled CASM + `Executable` JSON; for
+//!   test projects the `TestCompilation` (named tests, function_set_costs, contracts_info, program);
+//!   for Starknet projects the contract classes (ABI, entry points, debug annotations) and the CASM
+//!   classes (hints and pythonic hints).
+//! Projects hold several items of every collected kind (executables with one attribute, tests,
+//! contracts, impls and generic instantiations) and call cycles of every shape (mutual recursion of
+//! 2 and 3 functions, through trait impls, generic instantiations, a loop, a closure, across modules).
+//!
+//! A difference is classified: if the two Sierra programs have the same functions, the bodies that
+//! differ all belong to call cycles and differ only in where the gas withdrawal of the cycle was
+//! placed, it is the known finding `scc-representative-intern-id`; anything else is a violation.
+use std::collections::{BTreeMap, BTreeSet};
 use std::fmt::Write as _;
 use std::fs;
 use std::panic::AssertUnwindSafe;
@@ -27,19 +39,27 @@ use cairo_lang_compiler::db::RootDatabase;
 use cairo_lang_compiler::diagnostics::DiagnosticsReporter;
 use cairo_lang_compiler::project::setup_project;
 use cairo_lang_compiler::{CompilerConfig, compile_prepared_db, compile_prepared_db_program, compile_prepared_db_program_artifact};
-use cairo_lang_sierra::debug_info::Annotations;
 use cairo_lang_defs::db::DefsGroup;
-use cairo_lang_defs::ids::{ModuleId, TopLevelLanguageElementId};
+use cairo_lang_defs::ids::{FreeFunctionId, ModuleId, TopLevelLanguageElementId};
+use cairo_lang_executable::compile::{
+    ExecutableConfig, compile_executable_function_in_prepared_db, find_executable_functions, originating_function_path,
+};
+use cairo_lang_executable::executable::Executable;
+use cairo_lang_executable_plugin::executable_plugin_suite;
+use cairo_lang_filesystem::cfg::{Cfg, CfgSet};
 use cairo_lang_filesystem::db::{FilesGroup, init_dev_corelib};
 use cairo_lang_filesystem::ids::{CrateInput, FileId};
+use cairo_lang_lowering::LoweringStage;
 use cairo_lang_lowering::db::LoweringGroup;
 use cairo_lang_lowering::ids::ConcreteFunctionWithBodyId;
 use cairo_lang_lowering::optimizations::config::Optimizations;
 use cairo_lang_lowering::utils::InliningStrategy;
 use cairo_lang_semantic::db::SemanticGroup;
-use cairo_lang_sierra::program::{GenStatement, GenericArg, Program};
+use cairo_lang_sierra::debug_info::{Annotations, DebugInfo};
+use cairo_lang_sierra::program::{GenStatement, GenericArg, Program, ProgramArtifact, VersionedProgram};
 use cairo_lang_sierra_generator::canonical_id_replacer::CanonicalReplacer;
 use cairo_lang_sierra_generator::db::SierraGenGroup;
+use cairo_lang_sierra_generator::debug_info::SerializableTypeNamesDebugInfo;
 use cairo_lang_sierra_generator::replace_ids::{SierraIdReplacer, replace_sierra_ids_in_program};
 use cairo_lang_sierra_to_casm::compiler::{SierraToCasmConfig, compile};
 use cairo_lang_sierra_to_casm::metadata::{MetadataComputationConfig, calc_metadata, calc_metadata_ap_change_only};
@@ -48,19 +68,33 @@ use cairo_lang_starknet::compile::compile_prepared_db as starknet_compile_prepar
 use cairo_lang_starknet::contract::find_contracts;
 use cairo_lang_starknet::starknet_plugin_suite;
 use cairo_lang_starknet_classes::casm_contract_class::CasmContractClass;
+use cairo_lang_test_plugin::{TestsCompilationConfig, compile_test_prepared_db, test_plugin_suite};
 use cairo_lang_utils::CloneableDatabase;
 use rayon::iter::{IntoParallelIterator, ParallelIterator};
 use salsa::Database;
 use vcommon::*;
 
-const CORELIB: &str = "/repo/corelib/src";
+fn repo() -> String {
+    std::env::var("VERIF_REPO").unwrap_or_else(|_| "/repo".to_string())
+}
+
+#[derive(Clone, Copy, PartialEq)]
+enum Kind {
+    /// default compiler database (gas enabled)
+    Plain,
+    /// `cairo-execute` database: executable plugin, gas disabled
+    Executable,
+    /// `cairo-test` database: cfg(test), test plugin (+ starknet plugin when `true`), gas enabled
+    Tests(bool),
+    /// starknet plugin; the named contracts are compiled together by `compile_prepared_db`
+    Starknet(&'static [&'static str]),
+}
 
 #[derive(Clone)]
 struct Project {
     name: &'static str,
     path: PathBuf,
-    /// Starknet project: the contracts (full paths) compiled together by `compile_prepared_db`
-    starknet_contract: Option<&'static [&'static str]>,
+    kind: Kind,
 }
 
 #[derive(Clone, Debug)]
@@ -75,9 +109,9 @@ struct Config {
 impl Config {
     fn label(&self) -> String {
         format!(
-            "threads={} warmup={} prefix={}{}",
+            "threads={} first={} prefix={}{}",
             self.threads,
-            if self.warmup { "on" } else { "off" },
+            if self.warmup { "artifact(warm-up)" } else { "crate(no warm-up)" },
             match self.prefix {
                 None => "none".to_string(),
                 Some((s, n, par)) => format!("{}q/seed{}/{}", n, s, if par { "parallel-clones" } else { "sequential" }),
@@ -87,15 +121,31 @@ impl Config {
     }
 }
 
-#[derive(Default, Clone)]
+struct Art {
+    name: String,
+    text: String,
+    /// `Some(g)`: derived from the Sierra program(s) of group `g` (a difference may be a consequence
+    /// of the known finding, decided on those programs); `None`: independent of any program body.
+    group: Option<&'static str>,
+}
+
+#[derive(Default)]
 struct Artifacts {
-    /// (name, text); compared pairwise with the baseline
-    compared: Vec<(&'static str, String)>,
+    items: Vec<Art>,
+    /// Sierra programs with debug names, per group, for the classification of differences
+    programs: BTreeMap<&'static str, Vec<Program>>,
     sierra_raw: String,
     prefix_log: Vec<String>,
     seconds: f64,
 }
+impl Artifacts {
+    fn push(&mut self, name: impl Into<String>, text: String, group: Option<&'static str>) {
+        self.items.push(Art { name: name.into(), text, group });
+    }
+}
 
+// ---------------------------------------------------------------------------------------------
+// helpers on Sierra programs
 // ---------------------------------------------------------------------------------------------
 fn strip_names(p: &Program) -> Program {
     let mut q = p.clone();
@@ -155,15 +205,216 @@ fn casm_text(program: &Program) -> String {
     }
 }
 
+/// The artifact as it is written to disk (`VersionedProgram` JSON), with the interned ids replaced
+/// by canonical ones in the program and in every id-keyed part of the debug info.
+fn canonical_artifact_json(a: &ProgramArtifact) -> String {
+    let r = CanonicalReplacer::from_program(&a.program);
+    let program = r.apply(&a.program);
+    let debug_info = a.debug_info.as_ref().map(|d| DebugInfo {
+        type_names: d.type_names.iter().map(|(k, v)| (r.replace_type_id(k), v.clone())).collect(),
+        libfunc_names: d.libfunc_names.iter().map(|(k, v)| (r.replace_libfunc_id(k), v.clone())).collect(),
+        user_func_names: d.user_func_names.iter().map(|(k, v)| (r.replace_function_id(k), v.clone())).collect(),
+        annotations: d.annotations.clone(),
+        executables: d.executables.iter().map(|(k, v)| (k.clone(), v.iter().map(|f| r.replace_function_id(f)).collect())).collect(),
+    });
+    let v: VersionedProgram = ProgramArtifact { program, debug_info }.into();
+    serde_json::to_string_pretty(&v).unwrap()
+}
+
+/// `executables` of the debug info as readable lines: attribute, then the functions in order.
+fn executables_text(a: &ProgramArtifact) -> String {
+    let mut s = String::new();
+    if let Some(d) = &a.debug_info {
+        for (attr, fs) in d.executables.iter() {
+            writeln!(s, "[{attr}]").unwrap();
+            for f in fs {
+                writeln!(s, "  {}", f.debug_name.as_ref().map(|x| x.to_string()).unwrap_or_else(|| "<unnamed: compile with replace_ids>".into())).unwrap();
+            }
+        }
+    }
+    s
+}
+
 // ---------------------------------------------------------------------------------------------
-// the prefix of unrelated queries
+// classification of a difference between two Sierra programs (debug names)
+// ---------------------------------------------------------------------------------------------
+fn libfunc_name(p: &Program, st: &cairo_lang_sierra::program::Statement, decl: &BTreeMap<u64, usize>) -> String {
+    match st {
+        GenStatement::Return(_) => "return".to_string(),
+        GenStatement::Invocation(i) => match decl.get(&i.libfunc_id.id) {
+            Some(k) => p.libfunc_declarations[*k].long_id.to_string(),
+            None => format!("<undeclared {}>", i.libfunc_id),
+        },
+    }
+}
+fn generic_of(name: &str) -> &str {
+    name.split('<').next().unwrap_or(name)
+}
+/// What may differ inside a function when only the gas withdrawal of its call cycle moved.
+fn gas_or_plumbing(name: &str) -> bool {
+    const GAS: [&str; 5] = ["withdraw_gas", "withdraw_gas_all", "redeposit_gas", "get_builtin_costs", "coupon_refund"];
+    const PLUMBING: [&str; 14] = [
+        "branch_align", "store_temp", "store_local", "alloc_local", "finalize_locals", "drop", "dup", "rename", "jump",
+        "disable_ap_tracking", "enable_ap_tracking", "revoke_ap_tracking", "snapshot_take", "return",
+    ];
+    let g = generic_of(name);
+    GAS.contains(&g) || PLUMBING.contains(&g)
+        // the out-of-gas panic branch: panic_with_const_felt252::<'Out of gas'>, PanicResult / Panic plumbing
+        || name.contains("375233589013918064796019")
+        || name.contains("Panic")
+}
+fn is_gas_withdrawal(name: &str) -> bool {
+    matches!(generic_of(name), "withdraw_gas" | "withdraw_gas_all")
+}
+
+struct FnView {
+    name: String,
+    body: Vec<String>,
+    callees: BTreeSet<u64>,
+    id: u64,
+}
+fn function_views(p: &Program) -> Vec<FnView> {
+    let decl: BTreeMap<u64, usize> = p.libfunc_declarations.iter().enumerate().map(|(k, d)| (d.id.id, k)).collect();
+    let mut order: Vec<usize> = (0..p.funcs.len()).collect();
+    order.sort_by_key(|i| p.funcs[*i].entry_point.0);
+    let mut views: Vec<Option<FnView>> = (0..p.funcs.len()).map(|_| None).collect();
+    for (pos, &fi) in order.iter().enumerate() {
+        let start = p.funcs[fi].entry_point.0;
+        let end = order.get(pos + 1).map(|j| p.funcs[*j].entry_point.0).unwrap_or(p.statements.len());
+        let mut body = vec![];
+        let mut callees = BTreeSet::new();
+        for st in &p.statements[start.min(p.statements.len())..end.min(p.statements.len())] {
+            body.push(libfunc_name(p, st, &decl));
+            if let GenStatement::Invocation(i) = st {
+                if let Some(k) = decl.get(&i.libfunc_id.id) {
+                    let l = &p.libfunc_declarations[*k].long_id;
+                    if matches!(l.generic_id.0.as_str(), "function_call" | "coupon_call" | "coupon_buy") {
+                        for g in &l.generic_args {
+                            if let GenericArg::UserFunc(f) = g {
+                                callees.insert(f.id);
+                            }
+                        }
+                    }
+                }
+            }
+        }
+        let f = &p.funcs[fi];
+        views[fi] = Some(FnView { name: f.id.debug_name.as_ref().map(|s| s.to_string()).unwrap_or_else(|| format!("[{}]", f.id.id)), body, callees, id: f.id.id });
+    }
+    views.into_iter().map(|v| v.unwrap()).collect()
+}
+
+/// Members of call cycles (functions on a cycle of the call graph), by index, with a cycle label.
+fn cyclic_components(views: &[FnView]) -> BTreeMap<usize, usize> {
+    let idx: BTreeMap<u64, usize> = views.iter().enumerate().map(|(i, v)| (v.id, i)).collect();
+    let n = views.len();
+    let adj: Vec<Vec<usize>> = views.iter().map(|v| v.callees.iter().filter_map(|c| idx.get(c).copied()).collect()).collect();
+    // reachability by BFS from every node (programs here are small); i and j are in one SCC iff
+    // each reaches the other
+    let mut reach: Vec<BTreeSet<usize>> = vec![BTreeSet::new(); n];
+    for s in 0..n {
+        let mut stack = adj[s].clone();
+        while let Some(x) = stack.pop() {
+            if reach[s].insert(x) {
+                stack.extend(adj[x].iter().copied());
+            }
+        }
+    }
+    let mut comp = BTreeMap::new();
+    for i in 0..n {
+        if reach[i].contains(&i) {
+            let label = (0..n).find(|j| reach[i].contains(j) && reach[*j].contains(&i)).unwrap_or(i);
+            comp.insert(i, label);
+        }
+    }
+    comp
+}
+
+fn multiset_diff(a: &[String], b: &[String]) -> Vec<String> {
+    let mut m: BTreeMap<&str, i64> = BTreeMap::new();
+    for x in a {
+        *m.entry(x).or_default() += 1;
+    }
+    for x in b {
+        *m.entry(x).or_default() -= 1;
+    }
+    m.into_iter().filter(|(_, c)| *c != 0).map(|(k, _)| k.to_string()).collect()
+}
+
+/// `Ok(description)` when the difference between the two programs is exactly the known finding:
+/// same functions in the same order, every function whose body differs lies on a call cycle, its
+/// number of gas withdrawals differs, and the libfuncs it gained or lost are gas handling, the
+/// out-of-gas panic branch or value plumbing.  `Err(reason)` otherwise.
+fn classify_scc(a: &Program, b: &Program) -> Result<String, String> {
+    let (va, vb) = (function_views(a), function_views(b));
+    let (na, nb): (Vec<&String>, Vec<&String>) = (va.iter().map(|v| &v.name).collect(), vb.iter().map(|v| &v.name).collect());
+    if na != nb {
+        return Err(format!("the function lists differ: {:?} vs {:?}", &na[..na.len().min(8)], &nb[..nb.len().min(8)]));
+    }
+    let cyc = cyclic_components(&va);
+    let mut moved: BTreeMap<usize, (Vec<String>, Vec<String>)> = BTreeMap::new();
+    let mut differing = 0;
+    for (i, (fa, fb)) in va.iter().zip(vb.iter()).enumerate() {
+        let ca: BTreeSet<&String> = va.iter().filter(|v| fa.callees.contains(&v.id)).map(|v| &v.name).collect();
+        let cb: BTreeSet<&String> = vb.iter().filter(|v| fb.callees.contains(&v.id)).map(|v| &v.name).collect();
+        if fa.body == fb.body {
+            continue;
+        }
+        differing += 1;
+        // on a call cycle itself, or a const-specialisation `f{..}` of a function that is (the
+        // specialised copy carries the body of `f`, with or without `f`'s gas withdrawal)
+        let base = fa.name.split('{').next().unwrap_or(&fa.name).to_string();
+        let label = match cyc.get(&i) {
+            Some(l) => l,
+            None => match va.iter().position(|v| v.name == base).and_then(|j| cyc.get(&j)) {
+                Some(l) if base != fa.name => l,
+                _ => return Err(format!("function {} differs and is not on a call cycle", fa.name)),
+            },
+        };
+        // callees may differ only by the out-of-gas panic helper
+        let cd: Vec<&&String> = ca.symmetric_difference(&cb).filter(|n| !n.contains("375233589013918064796019") && !n.contains("panic")).collect();
+        if !cd.is_empty() {
+            return Err(format!("function {} calls different functions: {:?}", fa.name, cd));
+        }
+        let (wa, wb) = (fa.body.iter().filter(|n| is_gas_withdrawal(n)).count(), fb.body.iter().filter(|n| is_gas_withdrawal(n)).count());
+        if wa == wb {
+            return Err(format!("function {} differs but has the same number of gas withdrawals ({wa})", fa.name));
+        }
+        let other: Vec<String> = multiset_diff(&fa.body, &fb.body).into_iter().filter(|n| !gas_or_plumbing(n)).collect();
+        if !other.is_empty() {
+            return Err(format!("function {} differs in more than gas handling: {:?}", fa.name, &other[..other.len().min(6)]));
+        }
+        let e = moved.entry(*label).or_default();
+        if wa > wb {
+            e.0.push(fa.name.clone());
+        } else {
+            e.1.push(fa.name.clone());
+        }
+    }
+    if differing == 0 {
+        return Err("no function body differs (only declarations / order)".into());
+    }
+    let mut d = vec![];
+    for (label, (ina, inb)) in &moved {
+        let members: Vec<&String> = cyc.iter().filter(|(_, l)| *l == label).map(|(i, _)| &va[*i].name).collect();
+        d.push(format!("call cycle {:?}: gas withdrawal in {:?} vs in {:?}", members, ina, inb));
+    }
+    Ok(d.join("; "))
+}
+
+// ---------------------------------------------------------------------------------------------
+// the history: a prefix of other queries
 // ---------------------------------------------------------------------------------------------
 #[derive(Clone, Copy)]
 enum Query<'db> {
     Syntax(FileId<'db>),
     Semantic(ModuleId<'db>),
     Lowering(ModuleId<'db>),
-    Sierra(ConcreteFunctionWithBodyId<'db>),
+    // functions are kept as definition ids: the concrete (lowering) id of a function is interned
+    // only when its query runs, so that the order of the history is the order of interning
+    Sierra(FreeFunctionId<'db>),
+    Lowered(FreeFunctionId<'db>, LoweringStage),
+    Feedback(FreeFunctionId<'db>, LoweringStage),
 }
 
 fn run_query(db: &dyn Database, q: Query<'_>) {
@@ -179,7 +430,19 @@ fn run_query(db: &dyn Database, q: Query<'_>) {
             let _ = db.module_lowering_diagnostics(m);
         }
         Query::Sierra(f) => {
-            let _ = db.function_with_body_sierra(f);
+            if let Some(c) = ConcreteFunctionWithBodyId::from_no_generics_free(db, f) {
+                let _ = db.function_with_body_sierra(c);
+            }
+        }
+        Query::Lowered(f, s) => {
+            if let Some(c) = ConcreteFunctionWithBodyId::from_no_generics_free(db, f) {
+                let _ = db.lowered_body(c, s);
+            }
+        }
+        Query::Feedback(f, s) => {
+            if let Some(c) = ConcreteFunctionWithBodyId::from_no_generics_free(db, f) {
+                let _ = db.function_with_body_feedback_set(c, s);
+            }
         }
     }));
 }
@@ -189,22 +452,60 @@ fn describe(db: &dyn Database, q: &Query<'_>) -> String {
         Query::Syntax(f) => format!("syntax_diagnostics({})", f.full_path(db)),
         Query::Semantic(m) => format!("semantic_diagnostics({})", m.full_path(db)),
         Query::Lowering(m) => format!("lowering_diagnostics({})", m.full_path(db)),
-        Query::Sierra(f) => format!("sierra({})", f.full_path(db)),
+        Query::Sierra(f) => format!("function_with_body_sierra({})", f.full_path(db)),
+        Query::Lowered(f, s) => format!("lowered_body({}, {:?})", f.full_path(db), s),
+        Query::Feedback(f, s) => format!("function_with_body_feedback_set({}, {:?})", f.full_path(db), s),
     }
 }
 
-fn run_prefix(db: &dyn CloneableDatabase, seed: u64, n: usize, parallel: bool) -> Vec<String> {
-    let mut rng = Rng(seed);
-    // candidates: modules of every crate in the database (corelib and the project)
-    let mut modules: Vec<ModuleId<'_>> = vec![];
-    for c in db.crates() {
-        modules.extend(db.crate_modules(*c).iter().copied());
+fn free_functions_of<'db>(db: &'db dyn Database, modules: &[ModuleId<'db>]) -> Vec<FreeFunctionId<'db>> {
+    let mut v = vec![];
+    for m in modules {
+        let Ok(data) = m.module_data(db) else { continue };
+        for (id, _) in data.free_functions(db).iter() {
+            // (functions with generic parameters have no concrete id of their own: their queries
+            // are no-ops; nothing is asked about a function before its turn in the history)
+            v.push(*id);
+        }
     }
+    v
+}
+
+fn run_prefix(db: &dyn CloneableDatabase, own: &[CrateInput], seed: u64, n: usize, parallel: bool) -> Vec<String> {
+    let mut rng = Rng(seed);
+    let own_ids = CrateInput::into_crate_ids(db, own.to_vec());
+    let mut own_modules: Vec<ModuleId<'_>> = vec![];
+    let mut other_modules: Vec<ModuleId<'_>> = vec![];
+    for c in db.crates() {
+        let ms = db.crate_modules(*c);
+        if own_ids.contains(c) {
+            own_modules.extend(ms.iter().copied());
+        } else {
+            other_modules.extend(ms.iter().copied());
+        }
+    }
+    let own_fns = free_functions_of(db, &own_modules);
+    const STAGES: [LoweringStage; 4] = [LoweringStage::Monomorphized, LoweringStage::PreOptimizations, LoweringStage::PostBaseline, LoweringStage::Final];
     let mut queries: Vec<Query<'_>> = vec![];
     let mut guard = 0;
-    while queries.len() < n && guard < n * 20 && !modules.is_empty() {
+    while queries.len() < n && guard < n * 20 {
         guard += 1;
-        let m = *rng.pick(&modules);
+        // 2 of 3 queries concern the project itself
+        let own_turn = rng.below(3) != 0 && !own_modules.is_empty();
+        if own_turn && !own_fns.is_empty() && rng.below(4) != 0 {
+            let f = *rng.pick(&own_fns);
+            queries.push(match rng.below(6) {
+                0 | 1 | 2 => Query::Sierra(f),
+                3 | 4 => Query::Lowered(f, *rng.pick(&STAGES)),
+                _ => Query::Feedback(f, *rng.pick(&[LoweringStage::Monomorphized, LoweringStage::Final])),
+            });
+            continue;
+        }
+        let pool = if own_turn { &own_modules } else { &other_modules };
+        if pool.is_empty() {
+            continue;
+        }
+        let m = *rng.pick(pool);
         match rng.below(10) {
             0 => {
                 if let Ok(files) = db.module_files(m) {
@@ -214,17 +515,14 @@ fn run_prefix(db: &dyn CloneableDatabase, seed: u64, n: usize, parallel: bool) -
                 }
             }
             1 | 2 => queries.push(Query::Semantic(m)),
-            3 => queries.push(Query::Lowering(m)),
+            3 | 4 => queries.push(Query::Lowering(m)),
             _ => {
-                let Ok(data) = m.module_data(db) else { continue };
-                let fs: Vec<_> = data.free_functions(db).iter().map(|(id, _)| *id).collect();
+                let fs = free_functions_of(db, &[m]);
                 if fs.is_empty() {
                     continue;
                 }
                 let f = *rng.pick(&fs);
-                if let Some(c) = ConcreteFunctionWithBodyId::from_no_generics_free(db, f) {
-                    queries.push(Query::Sierra(c));
-                }
+                queries.push(if rng.below(3) == 0 { Query::Lowered(f, *rng.pick(&STAGES)) } else { Query::Sierra(f) });
             }
         }
     }
@@ -242,20 +540,249 @@ fn run_prefix(db: &dyn CloneableDatabase, seed: u64, n: usize, parallel: bool) -
 // ---------------------------------------------------------------------------------------------
 // one compilation
 // ---------------------------------------------------------------------------------------------
+fn build_db(kind: Kind) -> RootDatabase {
+    let mut b = RootDatabase::builder();
+    match kind {
+        Kind::Plain => {
+            b.with_optimizations(Optimizations::enabled_with_default_movable_functions(InliningStrategy::Default));
+        }
+        Kind::Executable => {
+            // as cairo_lang_executable::compile::prepare_db
+            b.skip_auto_withdraw_gas().with_cfg(CfgSet::from_iter([Cfg::kv("gas", "disabled")])).with_default_plugin_suite(executable_plugin_suite());
+        }
+        Kind::Tests(starknet) => {
+            // as cairo_lang_test_runner::TestCompiler::try_new with gas enabled
+            b.with_cfg(CfgSet::from_iter([Cfg::name("test"), Cfg::kv("target", "test")]));
+            b.with_default_plugin_suite(test_plugin_suite());
+            if starknet {
+                b.with_default_plugin_suite(starknet_plugin_suite());
+            }
+        }
+        Kind::Starknet(_) => {
+            b.with_optimizations(Optimizations::enabled_with_default_movable_functions(InliningStrategy::Default));
+            b.with_default_plugin_suite(starknet_plugin_suite());
+        }
+    }
+    let mut db = b.build().expect("RootDatabase");
+    init_dev_corelib(&mut db, PathBuf::from(format!("{}/corelib/src", repo())));
+    db
+}
+
+/// `compile_prepared_db` (no warm-up): the Sierra of the crates with all its debug info.
+fn crate_entry(db: &dyn CloneableDatabase, inputs: &[CrateInput], art: &mut Artifacts) {
+    let crate_ids = CrateInput::into_crate_ids(db, inputs.to_vec());
+    let mut diag = String::new();
+    let res = {
+        let reporter = DiagnosticsReporter::write_to_string(&mut diag).with_crates(inputs).allow_warnings();
+        let config = CompilerConfig { diagnostics_reporter: reporter, replace_ids: false, ..Default::default() };
+        catch(AssertUnwindSafe(|| {
+            compile_prepared_db(db, crate_ids, config).map(|pd| {
+                let raw = pd.program.clone();
+                let replacer = CanonicalReplacer::from_program(&raw);
+                let mut ann = Annotations::default();
+                ann.extend(Annotations::from(pd.debug_info.statements_locations.extract_statements_functions(db)));
+                ann.extend(Annotations::from(pd.debug_info.statements_locations.extract_statements_source_code_locations(db)));
+                let fdi = Annotations::from(pd.debug_info.functions_info.clone().replace_function_ids(&replacer).extract_serializable_debug_info(db));
+                let tn = Annotations::from(SerializableTypeNamesDebugInfo::extract_type_names(db, &raw).replace_type_ids(&replacer));
+                (raw, serde_json::to_string_pretty(&ann).unwrap(), serde_json::to_string_pretty(&fdi).unwrap(), serde_json::to_string_pretty(&tn).unwrap())
+            })
+        }))
+    };
+    art.push("crate.diagnostics", diag, None);
+    match res {
+        Ok(Ok((raw, annotations, fdi, tn))) => {
+            art.sierra_raw = strip_names(&raw).to_string();
+            let debug = replace_sierra_ids_in_program(db, &raw);
+            art.push("crate.sierra_debug_names", debug.to_string(), Some("crate"));
+            let canon = CanonicalReplacer::from_program(&raw).apply(&raw);
+            art.push("crate.sierra_canonical_ids", strip_names(&canon).to_string(), Some("crate"));
+            let canon_debug = CanonicalReplacer::from_program(&debug).apply(&debug);
+            art.push("crate.sierra_canonical_with_names", canon_debug.to_string(), Some("crate"));
+            art.push("crate.casm", casm_text(&canon), Some("crate"));
+            art.push("crate.statement_annotations_json", annotations, Some("crate"));
+            art.push("crate.functions_debug_info_json", fdi, Some("crate"));
+            art.push("crate.type_names_json", tn, Some("crate"));
+            art.programs.entry("crate").or_default().push(debug);
+        }
+        Ok(Err(e)) => art.push("crate.compile_error", format!("{e}"), None),
+        Err(p) => art.push("crate.compile_panic", p, None),
+    }
+}
+
+/// `compile_prepared_db_program_artifact` (diagnostics warm-up + function warm-up when the pool
+/// has more than one thread): what cairo-compile / scarb write, with the `executables`.
+fn artifact_entry(db: &dyn CloneableDatabase, inputs: &[CrateInput], art: &mut Artifacts) {
+    let crate_ids = CrateInput::into_crate_ids(db, inputs.to_vec());
+    let mut diag = String::new();
+    let res = {
+        let reporter = DiagnosticsReporter::write_to_string(&mut diag).with_crates(inputs).allow_warnings();
+        let config = CompilerConfig {
+            diagnostics_reporter: reporter,
+            replace_ids: true,
+            add_statements_functions: true,
+            add_statements_code_locations: true,
+            // keyed by raw interned ids in this entry point; compared in canonical form by crate_entry
+            add_functions_debug_info: false,
+            add_type_names: false,
+        };
+        catch(AssertUnwindSafe(|| compile_prepared_db_program_artifact(db, crate_ids, config)))
+    };
+    art.push("artifact.diagnostics", diag, None);
+    match res {
+        Ok(Ok(a)) => {
+            art.push("artifact.executables", executables_text(&a), None);
+            art.push("artifact.sierra_text", a.program.to_string(), Some("artifact"));
+            art.push("artifact.versioned_program_json", canonical_artifact_json(&a), Some("artifact"));
+            art.programs.entry("artifact").or_default().push(a.program);
+        }
+        Ok(Err(e)) => art.push("artifact.compile_error", format!("{e}"), None),
+        Err(p) => art.push("artifact.compile_panic", p, None),
+    }
+}
+
+fn executable_entry(db: &dyn CloneableDatabase, inputs: &[CrateInput], art: &mut Artifacts) {
+    let crate_ids = CrateInput::into_crate_ids(db, inputs.to_vec());
+    let r = catch(AssertUnwindSafe(|| {
+        let found = find_executable_functions(db, crate_ids, None);
+        let paths: Vec<String> = found.iter().map(|f| originating_function_path(db, *f)).collect();
+        let mut outs = vec![];
+        for (f, path) in found.iter().zip(paths.iter()) {
+            let text = match compile_executable_function_in_prepared_db(db, *f, ExecutableConfig::default()) {
+                Ok(r) => {
+                    let casm = r.compiled_function.to_string();
+                    let json = serde_json::to_string_pretty(&Executable::new(r.compiled_function)).unwrap();
+                    format!("{casm}\n// ---- Executable JSON ----\n{json}")
+                }
+                Err(e) => format!("<error: {e}>"),
+            };
+            outs.push((path.clone(), text));
+        }
+        (paths, outs)
+    }));
+    match r {
+        Ok((paths, outs)) => {
+            art.push("executable.found_in_order", paths.join("\n"), None);
+            for (path, text) in outs {
+                // gas is disabled in this database: nothing excuses a difference
+                art.push(format!("executable.{path}.compiled"), text, None);
+            }
+        }
+        Err(p) => art.push("executable.panic", p, None),
+    }
+}
+
+fn tests_entry(db: &dyn CloneableDatabase, inputs: &[CrateInput], starknet: bool, art: &mut Artifacts) {
+    let mut diag = String::new();
+    let res = {
+        let reporter = DiagnosticsReporter::write_to_string(&mut diag).with_crates(inputs).allow_warnings();
+        let config = TestsCompilationConfig {
+            starknet,
+            contract_declarations: None,
+            contract_crate_ids: None,
+            executable_crate_ids: None,
+            add_statements_functions: true,
+            add_statements_code_locations: true,
+            add_functions_debug_info: false,
+            add_type_names: false,
+            replace_ids: true,
+        };
+        catch(AssertUnwindSafe(|| {
+            compile_test_prepared_db(db, config, inputs.to_vec(), reporter).map(|tc| {
+                let named = serde_json::to_string_pretty(&tc.metadata.named_tests).unwrap();
+                let costs: Vec<String> = tc
+                    .metadata
+                    .function_set_costs
+                    .iter()
+                    .map(|(f, c)| format!("{}: {:?}", f.debug_name.as_ref().map(|s| s.to_string()).unwrap_or_else(|| "<unnamed>".into()), c.iter().collect::<Vec<_>>()))
+                    .collect();
+                let contracts = serde_json::to_string_pretty(&tc.metadata.contracts_info.iter().collect::<Vec<_>>()).unwrap();
+                (named, costs.join("\n"), contracts, tc.sierra_program)
+            })
+        }))
+    };
+    art.push("tests.diagnostics", diag, None);
+    match res {
+        Ok(Ok((named, costs, contracts, a))) => {
+            art.push("tests.named_tests_json", named, None);
+            art.push("tests.function_set_costs", costs, Some("tests"));
+            art.push("tests.contracts_info_json", contracts, Some("tests"));
+            art.push("tests.executables", executables_text(&a), None);
+            art.push("tests.sierra_text", a.program.to_string(), Some("tests"));
+            art.push("tests.versioned_program_json", canonical_artifact_json(&a), Some("tests"));
+            art.programs.entry("tests").or_default().push(a.program);
+        }
+        Ok(Err(e)) => art.push("tests.compile_error", format!("{e}"), None),
+        Err(p) => art.push("tests.compile_panic", p, None),
+    }
+}
+
+fn starknet_entry(db: &dyn CloneableDatabase, inputs: &[CrateInput], wanted: &[&str], art: &mut Artifacts) {
+    let crate_ids = CrateInput::into_crate_ids(db, inputs.to_vec());
+    let mut diag = String::new();
+    let classes = {
+        let reporter = DiagnosticsReporter::write_to_string(&mut diag).with_crates(inputs).allow_warnings();
+        let config = CompilerConfig {
+            diagnostics_reporter: reporter,
+            replace_ids: true,
+            add_statements_functions: true,
+            add_statements_code_locations: true,
+            add_functions_debug_info: true,
+            add_type_names: true,
+        };
+        catch(AssertUnwindSafe(|| {
+            let all = find_contracts(db, &crate_ids);
+            let names: Vec<String> = all.iter().map(|c| c.submodule_id.full_path(db)).collect();
+            let chosen: Vec<_> = wanted.iter().filter_map(|w| all.iter().find(|c| c.submodule_id.full_path(db) == *w)).collect();
+            if chosen.len() != wanted.len() {
+                return Err(format!("contracts not found; available: {names:?}"));
+            }
+            // contracts are compiled in parallel on database clones (par_iter in compile_prepared_db)
+            starknet_compile_prepared_db(db, &chosen, config).map(|v| (names, v)).map_err(|e| format!("{e}"))
+        }))
+    };
+    art.push("starknet.diagnostics", diag, None);
+    match classes {
+        Ok(Ok((names, classes))) => {
+            art.push("starknet.contracts_found_in_order", names.join("\n"), None);
+            for (class, name) in classes.iter().zip(wanted.iter()) {
+                let short = name.rsplit("::").next().unwrap_or(name);
+                // the parts of the class that do not depend on function bodies
+                art.push(format!("starknet.{short}.abi_json"), serde_json::to_string_pretty(&class.abi).unwrap(), None);
+                let eps = &class.entry_points_by_type;
+                let sel = |v: &Vec<cairo_lang_starknet_classes::contract_class::ContractEntryPoint>| v.iter().map(|e| format!("{:#x}", e.selector)).collect::<Vec<_>>().join(",");
+                art.push(format!("starknet.{short}.entry_point_selectors"), format!("external: {}\nl1_handler: {}\nconstructor: {}", sel(&eps.external), sel(&eps.l1_handler), sel(&eps.constructor)), None);
+                art.push(format!("starknet.{short}.contract_class_json"), serde_json::to_string_pretty(class).unwrap(), Some("starknet"));
+                let casm = catch(AssertUnwindSafe(|| {
+                    let extracted = class.extract_sierra_program(false).map_err(|e| format!("{e}"))?;
+                    CasmContractClass::from_contract_class(class.clone(), extracted, true, usize::MAX).map_err(|e| format!("{e}"))
+                }));
+                art.push(
+                    format!("starknet.{short}.casm_contract_class_json"),
+                    match casm {
+                        Ok(Ok(c)) => serde_json::to_string_pretty(&c).unwrap(),
+                        Ok(Err(e)) => format!("<error: {e}>"),
+                        Err(p) => format!("<panic: {p}>"),
+                    },
+                    Some("starknet"),
+                );
+                if let Ok(Ok(ex)) = catch(AssertUnwindSafe(|| class.extract_sierra_program(true))) {
+                    art.programs.entry("starknet").or_default().push(ex.program);
+                }
+            }
+        }
+        Ok(Err(e)) => art.push("starknet.compile_error", e, None),
+        Err(p) => art.push("starknet.compile_panic", p, None),
+    }
+}
+
 fn compile_once(project: &Project, cfg: &Config) -> Artifacts {
     let t0 = Instant::now();
     let mut art = Artifacts::default();
-    let mut b = RootDatabase::builder();
-    b.with_optimizations(Optimizations::enabled_with_default_movable_functions(InliningStrategy::Default));
-    if project.starknet_contract.is_some() {
-        b.with_default_plugin_suite(starknet_plugin_suite());
-    }
-    let mut db = b.build().expect("RootDatabase");
-    init_dev_corelib(&mut db, PathBuf::from(CORELIB));
+    let mut db = build_db(project.kind);
     let inputs: Vec<CrateInput> = match setup_project(&mut db, &project.path) {
         Ok(i) => i,
         Err(e) => {
-            art.compared.push(("setup", format!("setup_project failed: {e:?}")));
+            art.push("setup", format!("setup_project failed: {e:?}"), None);
             return art;
         }
     };
@@ -271,102 +798,25 @@ fn compile_once(project: &Project, cfg: &Config) -> Artifacts {
         art.prefix_log.push(format!("compiled {} first ({} bytes of its diagnostics)", cfg.other_first.as_ref().unwrap().display(), other_diag.len()));
     }
     if let Some((seed, n, par)) = cfg.prefix {
-        art.prefix_log.extend(run_prefix(db, seed, n, par));
+        art.prefix_log.extend(run_prefix(db, &inputs, seed, n, par));
     }
-    let crate_ids = CrateInput::into_crate_ids(db, inputs.clone());
-    let mut diag = String::new();
-    if let Some(wanted) = project.starknet_contract {
-        let classes = {
-            let reporter = DiagnosticsReporter::write_to_string(&mut diag).with_crates(&inputs).allow_warnings();
-            let config = CompilerConfig {
-                diagnostics_reporter: reporter,
-                replace_ids: true,
-                add_statements_functions: true,
-                add_statements_code_locations: true,
-                add_functions_debug_info: true,
-                add_type_names: true,
-            };
-            catch(AssertUnwindSafe(|| {
-                let all = find_contracts(db, &crate_ids);
-                let names: Vec<String> = all.iter().map(|c| c.submodule_id.full_path(db)).collect();
-                let chosen: Vec<_> = wanted.iter().filter_map(|w| all.iter().find(|c| c.submodule_id.full_path(db) == *w)).collect();
-                if chosen.len() != wanted.len() {
-                    return Err(format!("contracts not found; available: {names:?}"));
-                }
-                // contracts are compiled in parallel on database clones (par_iter in compile_prepared_db)
-                starknet_compile_prepared_db(db, &chosen, config).map(|v| (names, v)).map_err(|e| format!("{e}"))
-            }))
-        };
-        art.compared.push(("diagnostics", diag));
-        match classes {
-            Ok(Ok((names, classes))) => {
-                art.compared.push(("contracts_found", names.join("\n")));
-                let mut cj = String::new();
-                let mut kj = String::new();
-                for class in &classes {
-                    cj.push_str(&serde_json::to_string_pretty(class).unwrap());
-                    cj.push('\n');
-                    let casm = catch(AssertUnwindSafe(|| {
-                        let extracted = class.extract_sierra_program(false).map_err(|e| format!("{e}"))?;
-                        CasmContractClass::from_contract_class(class.clone(), extracted, true, usize::MAX).map_err(|e| format!("{e}"))
-                    }));
-                    kj.push_str(&match casm {
-                        Ok(Ok(c)) => serde_json::to_string_pretty(&c).unwrap(),
-                        Ok(Err(e)) => format!("<error: {e}>"),
-                        Err(p) => format!("<panic: {p}>"),
-                    });
-                    kj.push('\n');
-                }
-                art.compared.push(("contract_class_json", cj));
-                art.compared.push(("casm_contract_class_json", kj));
+    match project.kind {
+        Kind::Starknet(wanted) => starknet_entry(db, &inputs, wanted, &mut art),
+        kind => {
+            if cfg.warmup {
+                artifact_entry(db, &inputs, &mut art);
+                crate_entry(db, &inputs, &mut art);
+            } else {
+                crate_entry(db, &inputs, &mut art);
+                artifact_entry(db, &inputs, &mut art);
             }
-            Ok(Err(e)) => art.compared.push(("compile_error", e)),
-            Err(p) => art.compared.push(("compile_panic", p)),
-        }
-    } else {
-        // the program with the raw interned ids, and the statement annotations (functions and source
-        // code locations per statement: keyed by statement index, so they must not depend on ids)
-        let res = {
-            let reporter = DiagnosticsReporter::write_to_string(&mut diag).with_crates(&inputs).allow_warnings();
-            let config = CompilerConfig {
-                diagnostics_reporter: reporter,
-                replace_ids: false,
-                add_statements_functions: true,
-                add_statements_code_locations: true,
-                ..Default::default()
-            };
-            catch(AssertUnwindSafe(|| {
-                if cfg.warmup {
-                    compile_prepared_db_program_artifact(db, crate_ids, config).map(|a| {
-                        let ann = a.debug_info.as_ref().map(|d| serde_json::to_string_pretty(&d.annotations).unwrap()).unwrap_or_default();
-                        (a.program, ann)
-                    })
-                } else {
-                    compile_prepared_db(db, crate_ids, config).map(|pd| {
-                        let mut ann = Annotations::default();
-                        ann.extend(Annotations::from(pd.debug_info.statements_locations.extract_statements_functions(db)));
-                        ann.extend(Annotations::from(pd.debug_info.statements_locations.extract_statements_source_code_locations(db)));
-                        (pd.program, serde_json::to_string_pretty(&ann).unwrap())
-                    })
-                }
-            }))
-        };
-        art.compared.push(("diagnostics", diag));
-        match res {
-            Ok(Ok((raw, annotations))) => {
-                art.compared.push(("statement_annotations_json", annotations));
-                art.sierra_raw = strip_names(&raw).to_string();
-                let debug = replace_sierra_ids_in_program(db, &raw);
-                art.compared.push(("sierra_debug_names", debug.to_string()));
-                let canon = CanonicalReplacer::from_program(&raw).apply(&raw);
-                art.compared.push(("sierra_canonical_ids", strip_names(&canon).to_string()));
-                // canonical ids + debug names, as `replace_ids` users of the canonical form see it
-                let canon_debug = CanonicalReplacer::from_program(&debug).apply(&debug);
-                art.compared.push(("sierra_canonical_with_names", canon_debug.to_string()));
-                art.compared.push(("casm", casm_text(&canon)));
+            match kind {
+                Kind::Executable => executable_entry(db, &inputs, &mut art),
+                Kind::Tests(starknet) => tests_entry(db, &inputs, starknet, &mut art),
+                _ => {}
             }
-            Ok(Err(e)) => art.compared.push(("compile_error", format!("{e}"))),
-            Err(p) => art.compared.push(("compile_panic", p)),
+            // the order in which the two entry points ran must not show either
+            art.items.sort_by(|a, b| a.name.cmp(&b.name));
         }
     }
     art.seconds = t0.elapsed().as_secs_f64();
@@ -387,10 +837,20 @@ fn first_diff(a: &str, b: &str) -> String {
     format!("one is a prefix of the other: {} vs {} lines", a.lines().count(), b.lines().count())
 }
 
+// ---------------------------------------------------------------------------------------------
+// generated projects
+// ---------------------------------------------------------------------------------------------
+fn write_project(dir: &Path, crate_name: &str, files: &[(&str, String)]) {
+    fs::create_dir_all(dir).unwrap();
+    fs::write(dir.join("cairo_project.toml"), format!("[crate_roots]\n{crate_name} = \".\"\n\n[config.global]\nedition = \"2024_07\"\n")).unwrap();
+    for (name, text) in files {
+        fs::write(dir.join(name), text).unwrap();
+    }
+}
+
 /// A small crate with diagnostics of every phase in several modules: their order is at stake.
 fn write_diag_project(dir: &Path) {
-    fs::create_dir_all(dir).unwrap();
-    fs::write(dir.join("cairo_project.toml"), "[crate_roots]\ndiagp = \".\"\n\n[config.global]\nedition = \"2024_07\"\n").unwrap();
+    let mut files: Vec<(String, String)> = vec![];
     let mut lib = String::new();
     for i in 0..6 {
         writeln!(lib, "mod m{i};").unwrap();
@@ -404,9 +864,105 @@ fn write_diag_project(dir: &Path) {
         if i % 2 == 0 {
             writeln!(m, "mod inner {{\n    fn deep() -> u16 {{\n        let q: felt252 = 1;\n        q\n    }}\n    pub fn dup() {{}}\n    pub fn dup() {{}}\n}}").unwrap();
         }
-        fs::write(dir.join(format!("m{i}.cairo")), m).unwrap();
+        files.push((format!("m{i}.cairo"), m));
     }
-    fs::write(dir.join("lib.cairo"), lib).unwrap();
+    files.push(("lib.cairo".into(), lib));
+    let refs: Vec<(&str, String)> = files.iter().map(|(a, b)| (a.as_str(), b.clone())).collect();
+    write_project(dir, "diagp", &refs);
+}
+
+/// Call cycles of every shape, in several modules (gas enabled: every cycle gets a gas withdrawal).
+fn write_cycles_project(dir: &Path) {
+    let lib = "mod two;\nmod three;\nmod via_trait;\nmod via_generic;\nmod via_loop;\nmod nested;\nmod via_closure;\nmod plain;\n";
+    let two = "\
+pub fn pong(n: felt252) -> felt252 {\n    if n == 0 {\n        1\n    } else {\n        ping(n - 1) + 2\n    }\n}\n
+pub fn ping(n: felt252) -> felt252 {\n    if n == 0 {\n        0\n    } else {\n        pong(n - 1) + 1\n    }\n}\n
+pub fn even(n: u32) -> bool {\n    if n == 0 {\n        true\n    } else {\n        odd(n - 1)\n    }\n}\n
+pub fn odd(n: u32) -> bool {\n    if n == 0 {\n        false\n    } else {\n        even(n - 1)\n    }\n}\n";
+    let three = "\
+pub fn a(n: felt252) -> felt252 {\n    if n == 0 {\n        10\n    } else {\n        b(n - 1) + 1\n    }\n}\n
+pub fn b(n: felt252) -> felt252 {\n    if n == 0 {\n        20\n    } else {\n        c(n - 1) * 2\n    }\n}\n
+pub fn c(n: felt252) -> felt252 {\n    if n == 0 {\n        30\n    } else {\n        a(n - 1) - 3\n    }\n}\n
+pub fn start_at_c(n: felt252) -> felt252 {\n    c(n) + b(n)\n}\n";
+    let via_trait = "\
+pub trait Walk<T> {\n    fn walk(self: T, n: u32) -> u32;\n}\n
+#[derive(Copy, Drop)]\npub struct Left {\n    pub w: u32,\n}\n
+#[derive(Copy, Drop)]\npub struct Right {\n    pub w: u32,\n}\n
+pub impl LeftWalk of Walk<Left> {\n    fn walk(self: Left, n: u32) -> u32 {\n        if n == 0 {\n            self.w\n        } else {\n            RightWalk::walk(Right { w: self.w + 1 }, n - 1)\n        }\n    }\n}\n
+pub impl RightWalk of Walk<Right> {\n    fn walk(self: Right, n: u32) -> u32 {\n        if n == 0 {\n            self.w\n        } else {\n            LeftWalk::walk(Left { w: self.w + 2 }, n - 1)\n        }\n    }\n}\n
+pub fn trait_entry(n: u32) -> u32 {\n    LeftWalk::walk(Left { w: 0 }, n)\n}\n";
+    let via_generic = "\
+pub fn gen_a<T, +Drop<T>, +Copy<T>>(x: T, n: u32) -> u32 {\n    if n == 0 {\n        0\n    } else {\n        gen_b(x, n - 1) + 1\n    }\n}\n
+pub fn gen_b<T, +Drop<T>, +Copy<T>>(x: T, n: u32) -> u32 {\n    if n == 0 {\n        1\n    } else {\n        gen_a(x, n - 1) + 2\n    }\n}\n
+pub fn generic_entry(n: u32) -> u32 {\n    gen_a(5_u8, n) + gen_a(7_felt252, n) + gen_b(true, n)\n}\n";
+    let via_loop = "\
+pub fn looper(n: u32) -> u32 {\n    let mut i = 0_u32;\n    let mut acc = 0_u32;\n    loop {\n        if i >= n {\n            break;\n        }\n        acc += helper(i);\n        i += 1;\n    }\n    acc\n}\n
+pub fn helper(k: u32) -> u32 {\n    if k == 0 {\n        0\n    } else {\n        looper(k - 1) + 1\n    }\n}\n";
+    let nested = "\
+pub mod x {\n    pub fn fx(n: felt252) -> felt252 {\n        if n == 0 {\n            0\n        } else {\n            super::y::fy(n - 1) + 1\n        }\n    }\n}\n
+pub mod y {\n    pub fn fy(n: felt252) -> felt252 {\n        if n == 0 {\n            0\n        } else {\n            super::x::fx(n - 1) + 1\n        }\n    }\n}\n";
+    let via_closure = "\
+pub fn with_closure(n: u32) -> u32 {\n    let f = |k: u32| -> u32 {\n        if k == 0 {\n            0\n        } else {\n            with_closure(k - 1) + 1\n        }\n    };\n    f(n)\n}\n";
+    let plain = "\
+use crate::{nested, three, two, via_closure, via_generic, via_loop, via_trait};\n
+pub fn square(x: felt252) -> felt252 {\n    x * x\n}\n
+pub fn main() -> felt252 {\n    let mut r = two::ping(3) + three::start_at_c(4) + nested::x::fx(2) + square(3);\n    if two::even(4) {\n        r += 1;\n    }\n    let s: u32 = via_trait::trait_entry(3) + via_generic::generic_entry(2) + via_loop::looper(3) + via_closure::with_closure(2);\n    r + s.into()\n}\n";
+    write_project(
+        dir,
+        "cycles",
+        &[
+            ("lib.cairo", lib.into()),
+            ("two.cairo", two.into()),
+            ("three.cairo", three.into()),
+            ("via_trait.cairo", via_trait.into()),
+            ("via_generic.cairo", via_generic.into()),
+            ("via_loop.cairo", via_loop.into()),
+            ("nested.cairo", nested.into()),
+            ("via_closure.cairo", via_closure.into()),
+            ("plain.cairo", plain.into()),
+        ],
+    );
+}
+
+/// Several `#[executable]` functions (declaration order is not alphabetical), in several modules.
+fn write_execs_project(dir: &Path) {
+    let lib = "\
+mod zeta;\nmod alpha;\nmod helpers;\n
+#[executable]\nfn run_c() -> felt252 {\n    helpers::ping(3)\n}\n
+#[executable]\nfn run_a(x: felt252) -> felt252 {\n    x + helpers::pong(2)\n}\n
+#[executable]\nfn run_b() -> u32 {\n    helpers::sum(4)\n}\n";
+    let zeta = "#[executable]\nfn run_z(a: u32, b: u32) -> u32 {\n    a + b + crate::helpers::sum(2)\n}\n\n#[executable]\nfn run_y() -> felt252 {\n    crate::helpers::pong(1)\n}\n";
+    let alpha = "#[executable]\nfn run_d() {}\n\n#[executable]\nfn run_e(v: Array<felt252>) -> usize {\n    v.len()\n}\n";
+    let helpers = "\
+pub fn pong(n: felt252) -> felt252 {\n    if n == 0 {\n        1\n    } else {\n        ping(n - 1) + 2\n    }\n}\n
+pub fn ping(n: felt252) -> felt252 {\n    if n == 0 {\n        0\n    } else {\n        pong(n - 1) + 1\n    }\n}\n
+pub fn sum(n: u32) -> u32 {\n    if n == 0 {\n        0\n    } else {\n        n + sum(n - 1)\n    }\n}\n";
+    write_project(dir, "execs", &[("lib.cairo", lib.into()), ("zeta.cairo", zeta.into()), ("alpha.cairo", alpha.into()), ("helpers.cairo", helpers.into())]);
+}
+
+/// Several tests with every kind of test configuration, in several modules.
+fn write_tests_project(dir: &Path) {
+    let lib = "\
+mod more;\nmod shapes;\n
+pub fn fact(n: u64) -> u64 {\n    if n == 0 {\n        1\n    } else {\n        n * fact(n - 1)\n    }\n}\n
+#[cfg(test)]\nmod tests {\n    use super::fact;\n
+    #[test]\n    fn t_zeta() {\n        assert!(fact(3) == 6);\n    }\n
+    #[test]\n    #[available_gas(2000000)]\n    fn t_alpha() {\n        assert_eq!(fact(4), 24);\n    }\n
+    #[test]\n    #[should_panic(expected: ('boom',))]\n    fn t_mid() {\n        core::panic_with_felt252('boom');\n    }\n
+    #[test]\n    #[ignore]\n    fn t_ignored() {}\n}\n";
+    let more = "\
+pub fn triple(x: u32) -> u32 {\n    x * 3\n}\n
+#[cfg(test)]\nmod tests {\n    use super::triple;\n
+    #[test]\n    fn t_triple_b() {\n        assert_eq!(triple(2), 6);\n    }\n
+    #[test]\n    fn t_triple_a() {\n        assert_ne!(triple(2), 7);\n    }\n
+    #[test]\n    #[should_panic]\n    fn t_overflow() {\n        let _ = triple(0xffffffff);\n    }\n}\n";
+    let shapes = "\
+#[derive(Copy, Drop, PartialEq, Debug)]\npub enum Shape {\n    Dot,\n    Line: u32,\n}\n
+pub trait Area<T> {\n    fn area(self: T) -> u32;\n}\n
+pub impl ShapeArea of Area<Shape> {\n    fn area(self: Shape) -> u32 {\n        match self {\n            Shape::Dot => 0,\n            Shape::Line(l) => l,\n        }\n    }\n}\n
+#[cfg(test)]\nmod tests {\n    use super::{Area, Shape};\n
+    #[test]\n    fn t_area() {\n        assert_eq!(Shape::Line(3).area(), 3);\n        assert!(Shape::Dot.area() == 0);\n    }\n}\n";
+    write_project(dir, "testsp", &[("lib.cairo", lib.into()), ("more.cairo", more.into()), ("shapes.cairo", shapes.into())]);
 }
 
 fn main() {
@@ -421,32 +977,36 @@ fn main() {
     quiet_panics();
     let mut rng = Rng::from_env();
     let seed0 = rng.next();
+    let repo = repo();
 
-    let diag_dir = Path::new(out).join("diag_project");
+    let gen_dir = |n: &str| fs::canonicalize(out).unwrap().join(n);
+    let (diag_dir, cycles_dir, execs_dir, tests_dir) = (gen_dir("diag_project"), gen_dir("cycles_project"), gen_dir("execs_project"), gen_dir("tests_project"));
     write_diag_project(&diag_dir);
+    write_cycles_project(&cycles_dir);
+    write_execs_project(&execs_dir);
+    write_tests_project(&tests_dir);
 
-    let examples = Project { name: "examples", path: "/repo/examples".into(), starknet_contract: None };
-    let diagp = Project { name: "diag_project", path: diag_dir.clone(), starknet_contract: None };
-    let hash_chain = Project { name: "hash_chain_gas", path: "/repo/examples/hash_chain_gas.cairo".into(), starknet_contract: None };
-    let fib_array = Project { name: "fib_array", path: "/repo/examples/fib_array.cairo".into(), starknet_contract: None };
-    let bug_samples = Project { name: "bug_samples", path: "/repo/tests/bug_samples".into(), starknet_contract: None };
+    let examples = Project { name: "examples", path: format!("{repo}/examples").into(), kind: Kind::Plain };
+    let diagp = Project { name: "diag_project", path: diag_dir.clone(), kind: Kind::Plain };
+    let cycles = Project { name: "cycles_project", path: cycles_dir.clone(), kind: Kind::Plain };
+    let execs = Project { name: "execs_project", path: execs_dir.clone(), kind: Kind::Executable };
+    let testsp = Project { name: "tests_project", path: tests_dir.clone(), kind: Kind::Tests(false) };
+    let hash_chain = Project { name: "hash_chain_gas", path: format!("{repo}/examples/hash_chain_gas.cairo").into(), kind: Kind::Plain };
+    let fib_array = Project { name: "fib_array", path: format!("{repo}/examples/fib_array.cairo").into(), kind: Kind::Plain };
+    let bug_samples = Project { name: "bug_samples", path: format!("{repo}/tests/bug_samples").into(), kind: Kind::Tests(true) };
     const CONTRACTS: [&str; 4] = [
         "cairo_level_tests::contracts::erc20::erc_20",
         "cairo_level_tests::contracts::mintable::mintable_erc20_ownable",
         "cairo_level_tests::contracts::hello_starknet::hello_starknet",
         "cairo_level_tests::contracts::account::account",
     ];
-    let starknet = Project {
-        name: "starknet_contracts",
-        path: "/repo/crates/cairo-lang-starknet/cairo_level_tests".into(),
-        starknet_contract: Some(&CONTRACTS),
-    };
+    let starknet = Project { name: "starknet_contracts", path: format!("{repo}/crates/cairo-lang-starknet/cairo_level_tests").into(), kind: Kind::Starknet(&CONTRACTS) };
 
     // ---- the plan: (project, configurations); the first configuration is the baseline ----
     let baseline = Config { threads: 1, warmup: false, prefix: None, other_first: None };
-    let other_a: PathBuf = "/repo/examples/hash_chain_gas.cairo".into();
+    let other_a: PathBuf = format!("{repo}/examples/hash_chain_gas.cairo").into();
     let other_b: PathBuf = diag_dir.clone();
-    // the complete matrix: threads x warm-up x history kind, `reps` seeds per cell with a history
+    // the complete matrix: threads x entry order x history kind, `reps` seeds per cell with a history
     let mut kseed = 0u64;
     let mut matrix = |reps: usize, nq: usize, other: &PathBuf| -> Vec<Config> {
         let mut v = vec![baseline.clone()];
@@ -480,24 +1040,48 @@ fn main() {
             let j = rng.below(i as u64 + 1) as usize;
             rest.swap(i, j);
         }
-        // make sure the extremes are present: 16 threads with warm-up and a parallel prefix
-        rest.sort_by_key(|c| !(c.threads == 16 && c.warmup && matches!(c.prefix, Some((_, _, true)))));
+        // make sure the extremes are present: a sequential history on one thread (history alone),
+        // 16 threads with warm-up and a parallel prefix, 16 threads cold (races alone)
+        let rank = |c: &Config| -> u8 {
+            if c.threads == 1 && matches!(c.prefix, Some((_, _, false))) && c.other_first.is_none() {
+                0
+            } else if c.threads == 16 && c.warmup && matches!(c.prefix, Some((_, _, true))) {
+                1
+            } else if c.threads == 16 && c.prefix.is_none() {
+                2
+            } else {
+                3
+            }
+        };
+        let mut picked: Vec<Config> = vec![];
+        for r in 0..3 {
+            if let Some(p) = rest.iter().position(|c| rank(c) == r) {
+                picked.push(rest.remove(p));
+            }
+        }
+        picked.extend(rest);
         let mut v = vec![all[0].clone()];
-        v.extend(rest.into_iter().take(n));
+        v.extend(picked.into_iter().take(n));
         v
     };
     let plan: Vec<(Project, Vec<Config>)> = if thorough {
         vec![
-            (examples, matrix(4, 30, &other_b)),
-            (diagp, matrix(2, 24, &other_a)),
-            (bug_samples, matrix(1, 24, &other_a)),
-            (hash_chain, choose(matrix(1, 40, &other_b), 20, &mut rng)),
-            (fib_array, choose(matrix(1, 40, &other_b), 20, &mut rng)),
-            (starknet, choose(matrix(1, 24, &other_b), 28, &mut rng)),
+            (examples, matrix(3, 30, &other_b)),
+            (cycles, matrix(3, 24, &other_a)),
+            (execs, matrix(3, 16, &other_a)),
+            (testsp, matrix(2, 16, &other_a)),
+            (diagp, matrix(1, 24, &other_a)),
+            (bug_samples, choose(matrix(1, 30, &other_a), 10, &mut rng)),
+            (hash_chain, choose(matrix(1, 40, &other_b), 12, &mut rng)),
+            (fib_array, choose(matrix(1, 40, &other_b), 12, &mut rng)),
+            (starknet, choose(matrix(1, 24, &other_b), 20, &mut rng)),
         ]
     } else {
         vec![
-            (examples, choose(matrix(1, 12, &other_b), 7, &mut rng)),
+            (examples, choose(matrix(1, 16, &other_b), 6, &mut rng)),
+            (cycles, choose(matrix(1, 16, &other_a), 8, &mut rng)),
+            (execs, choose(matrix(1, 10, &other_a), 8, &mut rng)),
+            (testsp, choose(matrix(1, 10, &other_a), 6, &mut rng)),
             (diagp, choose(matrix(1, 10, &other_a), 4, &mut rng)),
             (starknet, choose(matrix(1, 10, &other_b), 3, &mut rng)),
         ]
@@ -506,12 +1090,13 @@ fn main() {
     let mut differences: Vec<serde_json::Value> = vec![];
     let mut per_project: Vec<serde_json::Value> = vec![];
     let mut samples: Vec<String> = vec![];
-    let (mut compilations, mut distinct_cfg, mut raw_differs, mut artifacts_compared, mut bytes_compared) = (0usize, 0usize, 0usize, 0usize, 0usize);
-    let mut labels = std::collections::BTreeSet::new();
+    let (mut compilations, mut distinct_cfg, mut raw_differs, mut artifacts_compared, mut bytes_compared, mut known_hits) = (0usize, 0usize, 0usize, 0usize, 0usize, 0usize);
+    let mut labels = BTreeSet::new();
     for (project, configs) in &plan {
         let mut base: Option<(String, Artifacts)> = None;
         let mut times = vec![];
         let mut raw_diff_here = 0;
+        let mut known_here = 0;
         let mut sizes = serde_json::Map::new();
         for cfg in configs {
             let art = run_config(project, cfg);
@@ -523,56 +1108,93 @@ fn main() {
             eprintln!("[h12c] {} [{}] {:.1}s", project.name, cfg.label(), art.seconds);
             match &base {
                 None => {
-                    for (name, text) in &art.compared {
-                        sizes.insert(name.to_string(), serde_json::json!({"bytes": text.len(), "lines": text.lines().count()}));
-                        fs::write(format!("{}/{}.{}.baseline.txt", out, project.name, name), text).unwrap();
+                    for a in &art.items {
+                        sizes.insert(a.name.clone(), serde_json::json!({"bytes": a.text.len(), "lines": a.text.lines().count()}));
+                        fs::write(format!("{}/{}.{}.baseline.txt", out, project.name, a.name.replace("::", "__")), &a.text).unwrap();
                     }
-                    if samples.len() < 4 {
-                        let d = art.compared.iter().find(|(n, _)| *n == "diagnostics").map(|(_, t)| t.lines().take(2).collect::<Vec<_>>().join(" | ")).unwrap_or_default();
+                    if samples.len() < 6 {
                         samples.push(format!(
-                            "compile {} under [{}]: artifacts {:?}; diagnostics start: {}",
+                            "compile {} under [{}]: artifacts {:?}",
                             project.name,
                             cfg.label(),
-                            art.compared.iter().map(|(n, t)| format!("{}:{}B", n, t.len())).collect::<Vec<_>>(),
-                            &d[..d.len().min(160)]
+                            art.items.iter().map(|a| format!("{}:{}B", a.name, a.text.len())).collect::<Vec<_>>()
                         ));
                     }
                     base = Some((cfg.label(), art));
                 }
                 Some((blabel, b)) => {
-                    if samples.len() < 4 && !art.prefix_log.is_empty() {
-                        samples.push(format!("compile {} under [{}] after the query prefix {:?}", project.name, cfg.label(), &art.prefix_log[..art.prefix_log.len().min(6)]));
+                    if samples.len() < 10 && !art.prefix_log.is_empty() && project.name != "examples" {
+                        samples.push(format!("compile {} under [{}] after the history {:?}", project.name, cfg.label(), &art.prefix_log[..art.prefix_log.len().min(8)]));
                     }
                     if art.sierra_raw != b.sierra_raw {
                         raw_diff_here += 1;
                     }
-                    let names_a: Vec<_> = b.compared.iter().map(|(n, _)| *n).collect();
-                    let names_b: Vec<_> = art.compared.iter().map(|(n, _)| *n).collect();
+                    let names_a: Vec<&String> = b.items.iter().map(|a| &a.name).collect();
+                    let names_b: Vec<&String> = art.items.iter().map(|a| &a.name).collect();
                     if names_a != names_b {
-                        differences.push(serde_json::json!({"project": project.name, "artifact": "set of artifacts", "config_a": blabel, "config_b": cfg.label(),
-                            "first_difference": format!("{:?} vs {:?}", names_a, names_b), "prefix_b": art.prefix_log}));
+                        differences.push(serde_json::json!({"project": project.name, "project_path": project.path.to_string_lossy(), "artifact": "set of artifacts", "config_a": blabel, "config_b": cfg.label(),
+                            "first_difference": format!("{:?} vs {:?}", names_a, names_b), "history_b": art.prefix_log, "seed": seed0}));
                         continue;
                     }
-                    for ((name, ta), (_, tb)) in b.compared.iter().zip(art.compared.iter()) {
+                    // classification per group of program-derived artifacts, computed once
+                    let mut verdicts: BTreeMap<&'static str, Result<String, String>> = BTreeMap::new();
+                    for (xa, xb) in b.items.iter().zip(art.items.iter()) {
                         artifacts_compared += 1;
-                        bytes_compared += ta.len();
-                        if ta != tb {
-                            let fa = format!("{}/{}.{}.diff-a.txt", out, project.name, name);
-                            let fb = format!("{}/{}.{}.diff-b.txt", out, project.name, name);
-                            fs::write(&fa, ta).unwrap();
-                            fs::write(&fb, tb).unwrap();
-                            differences.push(serde_json::json!({"project": project.name, "project_path": project.path.to_string_lossy(), "artifact": name,
-                                "config_a": blabel, "config_b": cfg.label(), "first_difference": first_diff(ta, tb),
-                                "file_a": fa, "file_b": fb, "prefix_b": art.prefix_log, "seed": seed0}));
+                        bytes_compared += xa.text.len();
+                        if xa.text == xb.text {
+                            continue;
                         }
+                        let known: Option<String> = match xa.group {
+                            None => None,
+                            Some(g) => {
+                                let v = verdicts.entry(g).or_insert_with(|| {
+                                    let (pa, pb) = (b.programs.get(g), art.programs.get(g));
+                                    match (pa, pb) {
+                                        (Some(pa), Some(pb)) if pa.len() == pb.len() && !pa.is_empty() => {
+                                            let mut descr = vec![];
+                                            for (x, y) in pa.iter().zip(pb.iter()) {
+                                                if x.to_string() == y.to_string() {
+                                                    continue;
+                                                }
+                                                match classify_scc(x, y) {
+                                                    Ok(d) => descr.push(d),
+                                                    Err(e) => return Err(e),
+                                                }
+                                            }
+                                            if descr.is_empty() { Err("the programs of the group are identical".into()) } else { Ok(descr.join(" | ")) }
+                                        }
+                                        _ => Err("no programs to classify".into()),
+                                    }
+                                });
+                                v.clone().ok()
+                            }
+                        };
+                        let tag = xa.name.replace("::", "__");
+                        let fa = format!("{}/{}.{}.diff-a.txt", out, project.name, tag);
+                        let fb = format!("{}/{}.{}.diff-b.txt", out, project.name, tag);
+                        fs::write(&fa, &xa.text).unwrap();
+                        fs::write(&fb, &xb.text).unwrap();
+                        if known.is_some() {
+                            known_here += 1;
+                        }
+                        differences.push(serde_json::json!({
+                            "project": project.name, "project_path": project.path.to_string_lossy(), "artifact": xa.name,
+                            "config_a": blabel, "config_b": cfg.label(), "first_difference": first_diff(&xa.text, &xb.text),
+                            "file_a": fa, "file_b": fb, "history_b": art.prefix_log, "seed": seed0,
+                            "known_scc_representative": known,
+                            "not_known_because": xa.group.and_then(|g| verdicts.get(g)).and_then(|v| v.clone().err()),
+                        }));
                     }
                 }
             }
         }
         raw_differs += raw_diff_here;
+        known_hits += known_here;
         per_project.push(serde_json::json!({"project": project.name, "path": project.path.to_string_lossy(), "configurations": configs.len(),
-            "raw_interned_ids_differ_from_baseline_in": raw_diff_here, "baseline_artifacts": sizes, "times": times}));
+            "raw_interned_ids_differ_from_baseline_in": raw_diff_here, "artifact_differences_classified_as_known_finding": known_here,
+            "baseline_artifacts": sizes, "times": times}));
     }
+    let unexplained = differences.iter().filter(|d| d["known_scc_representative"].is_null()).count();
     let summary = serde_json::json!({
         "compilations": compilations,
         "distinct_configurations": distinct_cfg,
@@ -581,6 +1203,8 @@ fn main() {
         "bytes_compared": bytes_compared,
         "configurations_whose_raw_sierra_ids_differ_from_baseline": raw_differs,
         "differences": differences.len(),
+        "differences_known_finding": known_hits,
+        "differences_unexplained": unexplained,
         "samples": samples,
     });
     fs::write(format!("{}/summary.json", out), serde_json::to_string_pretty(&summary).unwrap()).unwrap();
